@@ -207,6 +207,24 @@ fn run_image(cfg: &Cfg) -> ! {
         }
     }));
     rep.merge(par_range(cfg, 288, check_default_context_large));
+    // strong perspective at scale: triangles spanning a tall (or wide) target whose w runs over three decades (0.01 .. 10) -
+    // 1/w falls from 100 to 0.1 along hundreds of rows (or columns): a value stepped by repeated addition drifts there
+    rep.merge(par_range(cfg, 16, |i, r| {
+        let (tall, big) = (i % 2 == 0, [256u32, 700, 1024, 2048][(i / 2 % 4) as usize]);
+        let (wn, wf) = if i / 8 == 0 { (0.01f32, 10.0f32) } else { (10.0, 0.01) };
+        // apex at one end of the long axis, the opposite side at the other end
+        let v = if tall { [[0.0, -wn, 0.0, wn], [-wf, wf, 0.0, wf], [wf, wf, 0.0, wf]] } else { [[-wn, 0.0, 0.0, wn], [wf, -wf, 0.0, wf], [wf, wf, 0.0, wf]] };
+        let (bw, bh) = if tall { (48, big) } else { (big, 48) };
+        let scene = Scene { tris: vec![STri { v, a: PERMS[(i % 6) as usize] }], bw, bh, vp: (0, 0, bw, bh) };
+        // (violations are re-keyed by family and orientation, so that a finding can be listed by its prefix)
+        let mut tmp = Report::new();
+        check_image(&scene, DOORS[(i % 3) as usize], TargetKind::Owned, &mut tmp);
+        let fam = format!("strong perspective along {} {}px, w {wn}..{wf}", if tall { "y" } else { "x" }, big);
+        let viols: Vec<_> = std::mem::take(&mut tmp.viols).into_iter().collect();
+        r.merge(tmp);
+        for (k, v) in viols { let (class, rest) = k.split_once('|').unwrap_or((k.as_str(), "")); r.violation(format!("{class}|{fam}|{rest}"), v.what, v.case); }
+        r.h("strong-perspective-scene");
+    }));
     // painter scenes: triangles with pairwise disjoint depth ranges of their visible parts, back-to-front sorted, on a
     // colour-only target (and with the depth test off on a full one): the nearest triangle must still win
     let opool = order_pool();
@@ -267,6 +285,13 @@ fn proj_matrix(p: u8) -> Mat4x4<RealToProj<View>> {
         // the unit of length is arbitrary: near = 2^-27 (7.5e-9) and near = 2^20, far/near = 1000
         8 => perspective(1.0, 1.0, SCALE_TINY..1000.0 * SCALE_TINY),
         9 => perspective(1.0, 1.0, SCALE_HUGE..1000.0 * SCALE_HUGE),
+        // extreme focal and aspect ratios (a 174-degree and a 5.7-degree field of view)
+        // wide targets: long focal ratios magnify the rounding of a clipped vertex
+        13 => perspective(4.0, 1.0, 1.0..1000.0),
+        14 => perspective(8.0, 1.0, 1.0..1000.0),
+        10 => perspective(0.05, 1.0, 1.0..1000.0),
+        11 => perspective(20.0, 3.0, 1.0..1000.0),
+        12 => perspective(1.0, 0.02, 1.0..1000.0),
         4 => orthographic(pt3(-1.0, -1.0, -1.0), pt3(1.0, 1.0, 1.0)),
         5 => orthographic(pt3(-1000.0, -1.0, 0.5), pt3(1000.0, 3.0, 1000.0)),
         _ => orthographic(pt3(0.5, -3.0, 1.0), pt3(3.0, -0.5, 2.0)),
@@ -364,7 +389,7 @@ fn run_safety(cfg: &Cfg) -> ! {
     let cfgs = safety_cfgs();
     let nc = cfgs.len() as u64;
     let flagsets = [13u32 + 0, 0 + 0 * 9, 2 + 2 * 3 + 1 * 9, 0 + 36 + 72]; // default-ish (Back cull, Less), no test, front-cull+back-to-front+Less, writes off
-    for (pi, far) in [(0u8, 2.0f32), (1, 1000.0), (2, 1000.0), (3, 2.0), (4, 1.0), (5, 1000.0), (6, 2.0)] {
+    for (pi, far) in [(0u8, 2.0f32), (1, 1000.0), (2, 1000.0), (3, 2.0), (4, 1.0), (5, 1000.0), (6, 2.0), (10, 1000.0), (11, 1000.0), (12, 1000.0)] {
         if quick && (pi == 3 || pi == 6) { continue; }
         let pts = safety_lattice(quick || pi >= 2, far);
         let n = pts.len() as u64;
@@ -391,6 +416,38 @@ fn run_safety(cfg: &Cfg) -> ! {
             r.h("rescaled-scene");
         }));
     }
+    // wide targets x far vertices: a vertex just inside the near plane and two vertices hundreds of units away on either side of
+    // the eye plane - the edges cross the side planes close to the viewer, where the rounding error of an intersection
+    // computed from the far end point (1e-7 of ITS distance) is a sizeable fraction of w; on a target thousands of pixels
+    // wide that is most of a pixel
+    {
+        let mut near_pts: Vec<[f32; 3]> = vec![[0.0, 0.0, 1.05], [1.3862858, -2.1977615, 1.1363802]];
+        for sx in [-1.0f32, 1.0] { for sy in [-1.0f32, 1.0] { near_pts.push([0.07658726 * sx, 0.22268659 * sy, 1.1060327]); } }
+        let mut far_pts: Vec<[f32; 3]> = vec![[1000.0, 1000.0, 1000.0], [-1000.0, 3.0, -1000.0]];
+        for b in [[796.3793f32, 981.8133, 457.11987], [530.47815, 44.172913, -505.40768], [438.91547, 540.42676, 660.78845], [614.0768, 70.73633, -665.72485], [861.4812, 590.69104, 144.27612], [418.86646, 658.664, -201.41888]] { for sx in [-1.0f32, 1.0] { for sy in [-1.0f32, 1.0] { far_pts.push([b[0] * sx, b[1] * sy, b[2]]); } } }
+        let (nn, nf) = (near_pts.len() as u64, far_pts.len() as u64);
+        let wide = [(13u8, 4096u32, 4u32), (1, 16384, 4), (14, 2048, 6), (13, 6, 4096), (2, 8192, 3)];
+        rep.merge(par_range(cfg, nn * nf * nf * 5, |i, r| {
+            let (a, b, c, k) = (i % nn, i / nn % nf, i / nn / nf % nf, (i / nn / nf / nf) as usize);
+            if b == c { return; }
+            let (proj, bw, bh) = wide[k];
+            let t = [far_pts[b as usize], near_pts[a as usize], far_pts[c as usize]];
+            check_safety(&t, SafetyCfg { proj, bw, bh, vp: (0, 0, bw, bh), flags: [0u32, 13, 9][(i % 3) as usize], sub: i % 2 == 1 }, r);
+            r.h("wide-target-far-vertex-scene");
+        }));
+    }
+    // large targets: tall triangles with a nearly vertical edge that ends exactly on the right (left) border of a 16384 px wide
+    // viewport, starting j f32 steps of the NDC coordinate inside it (0.5 .. 3 px): the edge's change per row is of the order
+    // of the f32 spacing of its position, so a position stepped by repeated addition rounds the same way a thousand times
+    rep.merge(par_range(cfg, 16, |i, r| {
+        let j = [500u32, 740, 1000, 1850, 1940, 2500, 3140, 4000][(i % 8) as usize];
+        let m = if i / 8 == 0 { 1.0f32 } else { -1.0 };
+        let x_top = 1.0 - j as f32 * (2.0f32).powi(-23);
+        // (orthographic unit box: view x, y are NDC)
+        let t = [[x_top * m, -1.0, 0.0], [(x_top - 0.01) * m, -1.0, 0.0], [1.0 * m, 1.0, 0.0]];
+        check_safety(&t, SafetyCfg { proj: 4, bw: 16384, bh: 1200, vp: (0, 0, 16384, 1200), flags: 0, sub: false }, r);
+        r.h("large-target-scene");
+    }));
     // the camera door with viewport requests that overhang the frame
     {
         let pts = safety_lattice(true, 1000.0);
@@ -457,14 +514,19 @@ fn run_safety(cfg: &Cfg) -> ! {
     }));
     rep.sample(0, || obj! {"view_space_triangle" => vec![vec![-1000.0f32, 3.0, 1.0], vec![0.0, 0.0, 0.0], vec![3.0, -1.0, 1000.0]], "projection" => "perspective(1,1,1..1000)", "buffer" => "7x5 sub-view, viewport (2,1)..(5,4)", "flags" => "cull Back, test Less"});
     rep.finish(cfg, "exploration",
-        "view-space triangle soups: every ordered vertex triple (repeats included: degenerate and zero-area triangles) over an adversarial lattice in units of near (0, +-0.5, +-1, +-3, +-1000; z behind the eye, 0, on near, near(1+2^-20), far/2, far, far(1+2^-20), 1000) through the library's own perspective (far/near 2 and 1000; also the far/near 1000 soups with every length scaled by 2^-27 and by 2^20; also a millimetre-scale scene with near 0.001 on 2048-pixel wide/tall targets; also through Camera::render with viewport requests that overhang the frame; focal 0.5/1/2) and orthographic matrices and viewport(), into buffers 1x1..16x16 with full, 1x1, interior and edge-touching viewports, owned and strided sub-view targets, with 4 Context flag sets by rotation; plus all 144 flag combinations x 256 soups of 1-3 (coincident / degenerate) triangles x 3 projections, sub-pixel triangles of size 2^-4..2^-17 at every lattice point, and tessellated walls of 8/30/72 triangles at tilts 0..1 (many nearly equal depth keys) under 36 cull/sort/test combinations. Oracle: no panic, every cell outside the viewport (incl. the enclosing parent buffers) keeps its sentinel, no NaN in the depth buffer. non-trivial = the scene wrote at least one cell.",
+        "view-space triangle soups: every ordered vertex triple (repeats included: degenerate and zero-area triangles) over an adversarial lattice in units of near (0, +-0.5, +-1, +-3, +-1000; z behind the eye, 0, on near, near(1+2^-20), far/2, far, far(1+2^-20), 1000) through the library's own perspective (far/near 2 and 1000; also the far/near 1000 soups with every length scaled by 2^-27 and by 2^20; also a millimetre-scale scene with near 0.001 on 2048-pixel wide/tall targets; also through Camera::render with viewport requests that overhang the frame; focal 0.05 .. 20, aspect 0.02 .. 3) and orthographic matrices and viewport(), into buffers 1x1..16x16 with full, 1x1, interior and edge-touching viewports, owned and strided sub-view targets, with 4 Context flag sets by rotation; plus all 144 flag combinations x 256 soups of 1-3 (coincident / degenerate) triangles x 3 projections, sub-pixel triangles of size 2^-4..2^-17 at every lattice point, and tessellated walls of 8/30/72 triangles at tilts 0..1 (many nearly equal depth keys) under 36 cull/sort/test combinations. Oracle: no panic, every cell outside the viewport (incl. the enclosing parent buffers) keeps its sentinel, no NaN in the depth buffer. non-trivial = the scene wrote at least one cell.",
         &["|coordinate| <= 1000 x near, far/near <= 1000", "clip-space origin unreachable through these matrices (see DESIGN C02)"]);
 }
 
 // ------------------------------------------------------------------ C06 (explicit-state)
 
 /// One scene of n triangles: explore every history of render() calls that submits each triangle exactly once.
-fn explore_order(scene: &Scene, r: &mut Report, scene_id: u64, discard: Discard) {
+fn explore_order(scene: &Scene, r: &mut Report, scene_id: u64, discard: Discard) { explore_order_cull(scene, r, scene_id, discard, None) }
+
+/// `cull`: the face-culling mode of every call of the exploration (and of the solo renders that serve as its oracle): which
+/// triangles are drawn may depend on it, but not on the depth-sort setting, the order or the partition.
+fn explore_order_cull(scene: &Scene, r: &mut Report, scene_id: u64, discard: Discard, cull: Option<FaceCull>) {
+    let ctx_plain = || Context { face_cull: cull, ..Context::default() };
     let n = scene.tris.len();
     let sorts = [None, Some(DepthSort::FrontToBack), Some(DepthSort::BackToFront)];
     let px = (scene.bw * scene.bh) as usize;
@@ -658,6 +720,37 @@ fn far_pool() -> Vec<STri> {
     vec![mk(f0, 900.0, 0.1), mk(f1, 900.2, 0.3), mk(f2, 900.4, 0.5), mk(f1, 500.0, 0.2), mk(f2, 500.07, 0.4), mk(f0, 500.14, 0.6)]
 }
 
+/// A history with a colour-masked call: triangle A is submitted first with colour writes off (an invisible occluder: depth
+/// test and depth writes stay on), then triangle B normally. Afterwards every pixel's depth is that of the nearest fragment
+/// covering it, whichever call submitted it, and B's colour shows exactly where B is the nearest (or alone).
+fn check_masked_occluder(a: &STri, b: &STri, id: (usize, usize), r: &mut Report) {
+    r.eval();
+    let sc = Scene { tris: vec![a.clone(), b.clone()], bw: 8, bh: 8, vp: (0, 0, 8, 8) };
+    let case = || obj! {"kind" => "masked-occluder", "a" => id.0 as u64, "b" => id.1 as u64};
+    let tag = format!("pool#{} masked, then pool#{}", id.0, id.1);
+    let solo = |k: usize| render_scene(&sc, Some(&[k]), Door::Render, TargetKind::Owned, &ctx_plain(), Discard::Never, None);
+    let (Ok(sa), Ok(sb)) = (solo(0), solo(1)) else { r.violation(format!("render-panic|masked-occluder|{tag}"), "render panicked".into(), case()); return; };
+    let masked = Context { color_write: false, ..ctx_plain() };
+    let first = match render_scene(&sc, Some(&[0]), Door::Render, TargetKind::Owned, &masked, Discard::Never, None) { Ok(o) => o, Err(p) => { r.violation(format!("render-panic|masked-occluder|{tag}"), p, case()); return; } };
+    let fd = first.depth.clone().unwrap();
+    let second = match render_scene(&sc, Some(&[1]), Door::Render, TargetKind::Owned, &ctx_plain(), Discard::Never, Some((&first.color, &fd))) { Ok(o) => o, Err(p) => { r.violation(format!("render-panic|masked-occluder|{tag}"), p, case()); return; } };
+    let (da, db, dd) = (sa.depth.unwrap(), sb.depth.unwrap(), second.depth.unwrap());
+    let mut judged = 0;
+    for p in 0..64 {
+        let (ca, cb) = (sa.color[p] != color_sentinel(p), sb.color[p] != color_sentinel(p));
+        if ca && cb && da[p] == db[p] { continue; } // exact tie
+        let b_wins = cb && (!ca || db[p] > da[p]);
+        let want_c = if b_wins { sb.color[p] } else { color_sentinel(p) };
+        let want_d = if b_wins { db[p] } else if ca { da[p] } else { depth_sentinel(p) };
+        if second.color[p] != want_c || dd[p].to_bits() != want_d.to_bits() {
+            r.violation(format!("order-dependence|masked-occluder|{tag}"), format!("pixel {p}: after a colour-masked call with triangle A (covers: {ca}, depth {}) and a normal call with B (covers: {cb}, depth {}) the buffers hold colour {:#x} depth {}, expected colour {want_c:#x} depth {want_d}", da[p], db[p], second.color[p], dd[p]), case());
+            return;
+        }
+        if ca && cb { judged += 1; }
+    }
+    if judged > 0 { r.nontrivial(); r.h("masked-occluder:overlap-judged"); }
+}
+
 /// Painter clause at scale: `n` overlapping flat layers at distinct depths (0.07 % apart) submitted in a scrambled order in
 /// ONE call: depth test off + BackToFront must give the depth-buffered image. Both runs rasterize the same triangles, so
 /// the colour buffers must be identical, pixel for pixel.
@@ -692,8 +785,11 @@ fn run_order(cfg: &Cfg) -> ! {
         explore_order(&sc, r, i, Discard::Never);
         // a checkerboard-discarding fragment shader: discarded fragments must leave colour AND depth alone in every history
         if scenes[i as usize].len() <= 3 { explore_order(&sc, r, i, Discard::Parity); }
+        // ... and with back-face / front-face culling on (the pool has members of both windings)
+        if scenes[i as usize].len() <= 3 { explore_order_cull(&sc, r, i, Discard::Never, Some(FaceCull::Back)); if i % 2 == 0 { explore_order_cull(&sc, r, i, Discard::Never, Some(FaceCull::Front)); } }
         r.sample(i, || obj! {"scene_triangles" => scenes[i as usize].clone(), "example_history" => "render([2,0], FrontToBack) ; render([1], None)"});
     });
+    rep.merge(par_range(cfg, (np * np) as u64, |i, r| { let (a, b) = ((i as usize) % np, (i as usize) / np); if a != b { check_masked_occluder(&pool[a], &pool[b], (a, b), r); } }));
     rep.merge(par_range(cfg, 640, check_order_ulp));
     rep.merge(par_range(cfg, 5, |i, r| check_painter_scale([300usize, 1024, 1025, 2100, 3001][i as usize], r)));
     {
@@ -741,6 +837,20 @@ fn check_config_door(scene: &Scene, flags: u32, discard: Discard, kind: TargetKi
     if !ctx.color_write && (0..px).any(|p| out.color[p] != color_sentinel(p)) { r.violation(format!("color-write-off-but-written|{tag}"), "colour buffer modified although color_write = false".into(), case()); return; }
     if has_depth && !ctx.depth_write && (0..px).any(|p| out.depth.as_ref().unwrap()[p].to_bits() != depth_sentinel(p).to_bits()) { r.violation(format!("depth-write-off-but-written|{tag}"), "depth buffer modified although depth_write = false".into(), case()); return; }
     if discard == Discard::Always && ((0..px).any(|p| out.color[p] != color_sentinel(p)) || (has_depth && (0..px).any(|p| out.depth.as_ref().unwrap()[p].to_bits() != depth_sentinel(p).to_bits()))) { r.violation(format!("discard-but-written|{tag}"), "fragment shader returned None for every fragment but a buffer was modified".into(), case()); return; }
+    // a discarding shader, pixel by pixel: all fragments of one pixel share its parity, so under the checkerboard shader a kept
+    // pixel goes through exactly what it goes through under the never-discarding shader, and a discarded pixel is untouched
+    if discard == Discard::Parity {
+        if let Ok(nv) = twin(ctx.clone(), Discard::Never, kind) {
+            for p in 0..px {
+                let keep = ((p as u32 % scene.bw) + (p as u32 / scene.bw)) & 1 == 0;
+                let (wc, wd) = if keep { (nv.color[p], nv.depth.as_ref().map(|d| d[p].to_bits())) } else { (color_sentinel(p), nv.depth.as_ref().map(|_| depth_sentinel(p).to_bits())) };
+                if out.color[p] != wc || out.depth.as_ref().map(|d| d[p].to_bits()) != wd {
+                    r.violation(format!("discard-per-pixel|{tag}"), format!("checkerboard-discarding shader: pixel {p} ({}) holds colour {:#x} depth {:?}, expected colour {wc:#x} depth bits {wd:?}", if keep { "kept: as with the never-discarding shader" } else { "discarded: untouched" }, out.color[p], out.depth.as_ref().map(|d| d[p])), case());
+                    return;
+                }
+            }
+        }
+    }
     // colour writes off must not change what happens to depth
     if has_depth && !ctx.color_write && ctx.depth_write {
         if let Ok(t) = twin(Context { color_write: true, ..ctx.clone() }, discard, kind) {
@@ -959,6 +1069,22 @@ fn check_accumulation_from(sc: &Scene, si: usize, hidden_tri: &STri, timed: bool
     }
 }
 
+/// History at scale: a long-running context. After N render calls (empty triangle lists: nothing but the bookkeeping) the
+/// `calls` statistic must be N; N = 2^24 + 10 is representable in the f32 the field is declared as.
+fn check_calls_at_scale(r: &mut Report) {
+    r.eval();
+    let n: u32 = (1 << 24) + 10;
+    let ctx = ctx_plain();
+    let mut fb = Framebuf { color_buf: Buf2::<u32>::new((1, 1)), depth_buf: Buf2::<f32>::new((1, 1)) };
+    let sh = AttrShader::new(Discard::Never);
+    let (faces, verts): ([Tri<usize>; 0], [Vtx; 0]) = ([], []);
+    let vp = viewport(pt2(0u32, 0u32)..pt2(1u32, 1u32));
+    if let Err(p) = caught(|| for _ in 0..n { render(&faces, &verts, &sh, (), vp, &mut fb, &ctx); }) { r.violation("render-panic|calls-at-scale".into(), p, obj! {"kind" => "calls-at-scale"}); return; }
+    let calls = ctx.stats.borrow().calls as f64;
+    if calls != n as f64 { r.violation(format!("stats-calls-at-scale|n={n}"), format!("after {n} render() calls on one context the statistics report calls = {calls}"), obj! {"kind" => "calls-at-scale"}); } else { r.nontrivial(); }
+    r.h("calls-at-scale");
+}
+
 fn run_config(cfg: &Cfg) -> ! {
     let quick = cfg.quick();
     let mut rep = Report::new();
@@ -975,6 +1101,9 @@ fn run_config(cfg: &Cfg) -> ! {
     // histories inside one call: a triangle that needs clipping yet leaves nothing (#17, past the top-right corner), then
     // - directly or after an untouched one - triangles that are partially clipped (#7, #8, #18), and the reverse orders
     for seq in [vec![17usize, 7], vec![17, 8], vec![17, 18], vec![17, 4, 7], vec![7, 17], vec![17, 10, 8, 17, 18], vec![8, 17, 7]] { scenes.push(Scene { tris: seq.iter().map(|&k| pool[k].clone()).collect(), bw: 8, bh: 8, vp: (0, 0, 8, 8) }); }
+    // faces with a repeated index (two corners sharing one vertex), alone and among ordinary triangles: they are submitted
+    // primitives like any other
+    for k in [0usize, 1, 5, 7] { let t = &pool[k]; for (a, b) in [(1usize, 0usize), (2, 0), (2, 1)] { let mut d = t.clone(); d.v[a] = d.v[b]; d.a[a] = d.a[b]; scenes.push(Scene { tris: vec![d.clone()], bw: 8, bh: 8, vp: (0, 0, 8, 8) }); scenes.push(Scene { tris: vec![pool[2].clone(), d.clone(), pool[0].clone(), d], bw: 8, bh: 8, vp: (0, 0, 8, 8) }); } }
     scenes.push(Scene { tris: vec![], bw: 4, bh: 4, vp: (0, 0, 4, 4) });
     // scale sentinels: hundreds of triangles in one call (counters beyond 255), and a wide buffer (columns beyond 255)
     scenes.push(Scene { tris: (0..300).map(|k| pool[k % pool.len()].clone()).collect(), bw: 8, bh: 8, vp: (0, 0, 8, 8) });
@@ -1002,6 +1131,7 @@ fn run_config(cfg: &Cfg) -> ! {
         if sc.vp.0 > sc.vp.2 { return; } // mirrored viewports only for the culling check
         check_config_door(sc, f, [Discard::Never, Discard::Always, Discard::Parity][d as usize], [TargetKind::Owned, TargetKind::ColorOnly][k as usize], DOORS[((s + f as u64 + d) % 3) as usize], r);
     }));
+    if !quick { let mut r = Report::new(); check_calls_at_scale(&mut r); rep.merge(r); }
     // culling: every visible pool/lattice triangle x viewports incl. axis-mirrored ones x target kinds
     let mut tris: Vec<STri> = pool.clone();
     for k in 0..(if quick { 300 } else { 30000 }) { let i = k * 104729 + 7; let t = [lat[i % ln], lat[(i / ln + i * 5) % ln], lat[(i / ln / ln + i * 11) % ln]]; if clip_class(&t) != "hidden" && !rank_deficient(&t) { tris.push(STri { v: t, a: PERMS[k % 6] }); } }
@@ -1045,6 +1175,8 @@ fn main() {
                     check_safety(&t, SafetyCfg { proj: g("proj") as u8, bw: g("bw"), bh: g("bh"), vp: (vp[0], vp[1], vp[2], vp[3]), flags: g("flags"), sub: c.get("sub") == Some(&J::Bool(true)) }, r)
                 }
                 "default-ctx" => check_default_context_large(c.get("i").unwrap().as_u64().unwrap(), r),
+                "calls-at-scale" => check_calls_at_scale(r),
+                "masked-occluder" => { let pool = order_pool(); check_masked_occluder(&pool[c.get("a").unwrap().as_u64().unwrap() as usize], &pool[c.get("b").unwrap().as_u64().unwrap() as usize], (c.get("a").unwrap().as_u64().unwrap() as usize, c.get("b").unwrap().as_u64().unwrap() as usize), r) }
                 "painter-scale" => check_painter_scale(c.get("n").unwrap().as_u64().unwrap() as usize, r),
                 "order-ulp" => check_order_ulp(c.get("i").unwrap().as_u64().unwrap(), r),
                 "safety-camera" => {
